@@ -41,7 +41,7 @@ def pattern(n, salt=0):
     return bytes((37 * i + 11 + salt) % 251 + 1 for i in range(n))
 
 
-def make(kind, password, engine_id, db, context_name=b"", priv_password=None):
+def make(kind, password, engine_id, db, context_name=b"", priv_password=None, context_engine=b""):
     from puresnmp.credentials import V3, Auth, Priv
 
     method, priv = KINDS[kind]
@@ -55,11 +55,11 @@ def make(kind, password, engine_id, db, context_name=b"", priv_password=None):
         user = usm.User(name, (method, password), (priv, priv_password))
         creds = V3(name.decode(), Auth(password, method), Priv(priv_password, priv))
     ag = ragent.V3Agent(db, [user], engine_id=engine_id, clock=lambda: CLOCK.now)
-    client, sender = world.make_client(creds, ag.handle, context_name=context_name)
+    client, sender = world.make_client(creds, ag.handle, context_name=context_name, engine_id=context_engine)
     return client, sender, ag, user
 
 
-def judge_requests(ag, user, case, bad, context_name=b""):
+def judge_requests(ag, user, case, bad, context_name=b"", context_engine=b""):
     level = user.level
     entries = ag.log
     if not entries:
@@ -97,7 +97,7 @@ def judge_requests(ag, user, case, bad, context_name=b""):
         if m["max_size"] < 484:
             bad("msgMaxSize-below-484", got=m["max_size"])
         sc = m["scoped"]
-        if sc["context_engine_id"] != ag.engine_id or sc["context_name"] != context_name:
+        if sc["context_engine_id"] != (context_engine or ag.engine_id) or sc["context_name"] != context_name:
             bad("wrong-context", got=(sc["context_engine_id"], sc["context_name"]))
     others = {k: n for k, n in ag.stats.items() if n and k != "unknownEngineIDs"}
     if others:
@@ -121,7 +121,8 @@ def run_case(case):
     db = {OID: value, OID2: ("int", 1)}
     if op == "set":
         db[OID] = ("str", b"old")
-    client, sender, ag, user = make(kind, password, engine_id, db, ctx)
+    ctx_engine = b"\x80\x00\x1f\x88\x04another-engine" if case.get("ctxengine") else b""
+    client, sender, ag, user = make(kind, password, engine_id, db, ctx, context_engine=ctx_engine)
     out = []
     facts = dict(case)
 
@@ -147,7 +148,7 @@ def run_case(case):
         raise world.HarnessError(op)
     facts["exception"] = ops.exc_sig(exc)
     world.v3_auth_facts(facts, exc, ag)
-    judge_requests(ag, user, case, bad, ctx)
+    judge_requests(ag, user, case, bad, ctx, ctx_engine)
     if exc is not None:
         bad("authentic-response-not-accepted", message=str(exc)[:200])
     elif result != want:
@@ -189,6 +190,10 @@ def plan(tier):
         for z in (0, 1, 8, 11, 12, 13, 20, 26):
             for op in ("get", "set"):
                 cases.append(dict(family="engine-zeros", kind=kind, eidzeros=z, op=op))
+    # an explicit context engine id that differs from the agent's engine id
+    for kind in KINDS:
+        for op in ("get", "set", "getnext", "bulkget", "walk"):
+            cases.append(dict(family="context-engine", kind=kind, op=op, ctxengine=1))
     # context names shift the boundaries
     for kind in ("sha1-auth", "md5-priv", "sha1-block"):
         for cl in range(0, 41):
